@@ -105,6 +105,7 @@ MUTANTS = {
         ("revert-firstset-fix", "tatsu/peg/base.py", "self._firstset = self._first(k, self._rule_firstsets())", "self._firstset = self._first(k, defaultdict(set))", "caught"),
         ("synthesize-reads-its-base-from-the-registry", "tatsu/objectmodel/synth.py", "    if __synth_base not in bases:\n        bases = (*bases, __synth_base)\n", "    if SynthNode not in bases:\n        bases = (*bases, SynthNode)\n", "caught-thorough-history"),
         ("find-rule-iterates-a-set", "tatsu/parsing.py", "    for rulename in (name, name.strip('_'), f'_{name}_', f'_{name}'):", "    for rulename in {name, name.strip('_'), f'_{name}_', f'_{name}'}:", "caught"),
+        ("unknown-rules-in-set-order", "tatsu/peg/base.py", "msg = ' '.join(sorted(missing))", "msg = ' '.join(missing)", "caught"),
         ("no-synth-lock", "tatsu/objectmodel/synth.py", "    with __registry_lock:\n", "    if True:\n", "caught-thorough"),
         ("no-optimize-lock", "tatsu/peg/base.py", "        with _optimize_lock:\n            if isinstance(self._optimized, Grammar):", "        if True:\n            if isinstance(self._optimized, Grammar):", "caught-thorough"),
         # negative controls
